@@ -8,7 +8,7 @@ FREQS = ['YEARLY', 'MONTHLY', 'WEEKLY', 'DAILY', 'HOURLY', 'MINUTELY', 'SECONDLY
 
 def blank(freq, inter=1):
     return {'freq': freq, 'inter': inter, 'count': 0, 'until': [], 'mon': [], 'wk': [], 'yd': [], 'md': [], 'dow': [],
-            'H': [], 'M': [], 'S': [], 'pos': [], 'easter': [], 'shift': [0, 0, 0]}
+            'H': [], 'M': [], 'S': [], 'pos': [], 'easter': [], 'shift': [0, 0, 0, 0]}
 
 
 def dim(y, m):
@@ -337,3 +337,48 @@ def hostile_event(rnd, uid):
     rules = [hostile_rule_text(rnd, ds) for _ in range(rnd.choice([1, 1, 1, 2, 3]))]
     return {'uid': uid, 'ds': inst(ds), 'tz': bool(tz), 'rtext': ' | '.join(rules), 'count': 0, 'until': [],
             'ics': event_ics(uid, ds, rules, tzid=tz)}
+
+
+# ---------------------------------------------------------------- BYEASTER / SHIFT (C17)
+def shift_variant(rnd, kind=None, n=None):
+    """(SHIFT text, [days, biz, dir, inv]) - the spellings the README and shift.h document"""
+    kind = kind or rnd.choice(['d', 'd', 'b', 'b', 'b+', 'z', 'db'])
+    if kind == 'd':
+        d = n if n is not None else rnd.choice([1, -1, 2, 7, -7, 28, 29, 30, 31, -30, -31, 59, 60, -60, 365, 366, -365, -366, rnd.randint(-366, 366)]) or 1
+        return str(d), [d, 0, 0, 0]
+    if kind == 'b':
+        b = n if n is not None else rnd.choice([1, -1, 2, -2, 3, 4, 5, -5, 6, 10, -10, 21, 22, -23, rnd.randint(-60, 60)]) or 1
+        return '%dB' % b, [0, b, 1 if b > 0 else -1, 0]
+    if kind == 'b+':
+        b = n if n is not None else rnd.choice([1, -1, 2, -2, 5, -5, 7, rnd.randint(-40, 40)]) or 1
+        return '%dB%s' % (b, '+' if b > 0 else '-'), [0, b, 1 if b > 0 else -1, 1]
+    if kind == 'z':
+        t = rnd.choice(['0B', '-0B', '0B+', '0B-'])
+        return t, [0, 0, -1 if t in ('-0B', '0B-') else 1, 1]
+    d = rnd.choice([1, -1, 3, -3, 16, -16, 30, -30, rnd.randint(-90, 90)]) or 2
+    t, sh = shift_variant(rnd, rnd.choice(['b', 'b+', 'z']))
+    return '%d,%s' % (d, t), [d] + sh[1:]
+
+
+def shift_case(rnd, freqs=('YEARLY', 'MONTHLY'), kind=None, n=None, inter1=True):
+    """a rule whose unshifted result is known from C01, plus a SHIFT"""
+    while True:
+        ds, r, tag = random_case(rnd, list(freqs))
+        if inter1: r['inter'] = 1
+        if not r['pos'] or rnd.random() < 0.3: break
+    if len(r['H']) * len(r['M']) * len(r['S']) > 4: r['H'] = r['H'][:1]; r['M'] = r['M'][:2]; r['S'] = r['S'][:1]
+    r['shift_text'], r['shift'] = shift_variant(rnd, kind, n)
+    # COUNT only where no two dates can be moved onto one (whether COUNT counts the dates before or after they coincide is not stated)
+    if r['shift'][2]: r['count'] = 0
+    return ds, r, 'shift:' + tag
+
+
+def easter_case(rnd, ns, shifted=False):
+    y = rnd.choice([1901, 1902, 1950, 1999, 2000, 2038, 2090]); m = rnd.randint(1, 12); d = rnd.randint(1, dim(y, m))
+    ds = (y, m, d) if rnd.random() < 0.6 else (y, m, d, rnd.randint(0, 23), rnd.choice([0, 30]), 0)
+    r = blank('YEARLY', rnd.choice([1, 1, 1, 2, 3]) if not shifted else 1)
+    r['easter'] = sorted(ns)
+    if shifted: r['shift_text'], r['shift'] = shift_variant(rnd)
+    x = rnd.random()
+    if x < 0.2: r['count'] = rnd.choice([1, 3, 63, 64, 65, 130])
+    return ds, r, 'easter'
